@@ -106,6 +106,9 @@ def judge(dev, fmt, vendor, rbk, top, rules, state, new, report, memo=None):
     try:
         res, ncmds, err, diff, paths = step(dev, fmt, vendor, rbk, top, state, new)
     except Exception as e:  # noqa
+        from mc import core
+        if core.raised_in_harness(e):
+            raise
         report(dict(base, kind="exception", exc=type(e).__name__), case, repr(e)[:500])
         return None, 0
     if err is not None:
